@@ -7,8 +7,9 @@ import (
 )
 
 // TestVerifC04Trunc: correspondence lines for truncate() and for the UTF-8 decoder model.
-//   trunc <gen> <limit> <hex s> => <hex out>
-//   dec <gen> <hex s> => <rune> <size>
+//
+//	trunc <gen> <limit> <hex s> => <hex out>
+//	dec <gen> <hex s> => <rune> <size>
 func TestVerifC04Trunc(t *testing.T) {
 	out := vOpen(t)
 	defer out.Close()
